@@ -119,7 +119,27 @@ impl<'a> CommentDetector<'a> {
             }
         }
 
+        // A block opener that sits inside a line comment is plain comment text:
+        // `// see src/*.rs` or `x = 1; // not /* a block` must not open a block comment.
+        // (An opener at the very position of the prefix still wins, e.g. Lua `--[[`.)
+        if let Some(m) = &best_match
+            && self
+                .find_single_line_start(&chars, skip_raw_strings)
+                .is_some_and(|p| p < m.position)
+        {
+            return None;
+        }
+
         best_match
+    }
+
+    /// Byte position of the earliest single-line comment prefix outside string literals.
+    fn find_single_line_start(&self, chars: &[char], skip_raw_strings: bool) -> Option<usize> {
+        self.syntax
+            .single_line
+            .iter()
+            .filter_map(|prefix| find_outside_string(chars, prefix, skip_raw_strings))
+            .min()
     }
 
     /// Try to match a Lua long bracket pattern at the given position.
